@@ -2344,7 +2344,7 @@ class KtBaseMaskFunc(BaseMaskFunc):
 
         # Calculate the slices for inserting the original array into the padded array
         insert_slices = tuple(
-            slice((target_dim - current_dim) // 2, (target_dim - current_dim) // 2 + current_dim)
+            slice((target_dim - current_dim + 1) // 2, (target_dim - current_dim + 1) // 2 + current_dim)
             for target_dim, current_dim in zip(target_shape, current_shape)
         )
 
@@ -2573,7 +2573,7 @@ class KtRadialMaskFunc(KtBaseMaskFunc):
         acs_mask = np.tile(acs_mask, (nt, 1, 1))
 
         if return_acs:
-            return torch.from_numpy(acs_mask.astype(bool)[np.newaxis, ..., np.newaxis])
+            return self._reshape_and_add_coil_axis(acs_mask, shape)
 
         adjusted_acceleration = (acceleration * (num_low_freqs - num_rows * num_cols)) / (
             num_low_freqs * acceleration - num_rows * num_cols
@@ -2680,7 +2680,7 @@ class KtUniformMaskFunc(KtBaseMaskFunc):
             acs_mask = self.zero_pad_to_center(np.ones((nt, num_rows, num_low_freqs)), [nt, num_rows, num_cols])
 
             if return_acs:
-                return torch.from_numpy(acs_mask.astype(bool)[np.newaxis, ..., np.newaxis])
+                return self._reshape_and_add_coil_axis(acs_mask, shape)
 
             adjusted_acceleration = (acceleration * (num_low_freqs - num_cols)) / (
                 num_low_freqs * acceleration - num_cols
@@ -2801,7 +2801,7 @@ class KtGaussian1DMaskFunc(KtBaseMaskFunc):
             acs_mask = self.zero_pad_to_center(np.ones((nt, num_rows, num_low_freqs)), [nt, num_rows, num_cols])
 
             if return_acs:
-                return torch.from_numpy(acs_mask.astype(bool)[np.newaxis, ..., np.newaxis])
+                return self._reshape_and_add_coil_axis(acs_mask, shape)
 
             adjusted_acceleration = (acceleration * (num_low_freqs - num_cols)) / (
                 num_low_freqs * acceleration - num_cols
